@@ -30,16 +30,24 @@ Definition dec_entry (x : raw_entry) : entry :=
 (* the table of the tree being checked *)
 Definition current_table : table := map dec_entry race_access_table.
 
-(* Classes of the current tree that do NOT meet the discipline; each is an open
-   finding (known.d/race.json, proposed_fixes/C18-*.md).  C18_table_offenders
-   states that every offending class of the extracted table is in this list, so
-   a NEW offender breaks the obligation while repairing a finding in /repo does
-   not (its class just disappears from [offenders current_table]; delete it here
-   then).  With the empty list the statement is [lockset_ok current_table = true]. *)
-Definition current_known_offenders : list string :=
-  [ "internal/output.groupWriter.buff";     (* pipeline stages of ONE command write the group buffer concurrently *)
-    "internal/output.prefixWriter.buff";    (* same for the prefixed writer's line buffer *)
-    "taskfile/ast.MatrixRow.Value" ].       (* 7.17: resolveMatrixRefs stores into the shared matrix rows *)
+(* Classes of the current tree that do NOT meet the discipline and are recorded as
+   open findings.  None is open: the three classes found by this check
+   (groupWriter.buff, prefixWriter.buff: /repo 25abf76; MatrixRow.Value: /repo
+   3d636e5) were repaired, so Properties/C18.v states [lockset_ok current_table
+   = true] outright and any new unprotected access breaks that obligation.  A
+   defect that is recorded instead of repaired would be listed here (and in
+   KNOWN_FINDINGS.json), and C18_table_ok would then be stated for
+   [drop_classes current_known_offenders current_table]. *)
+Definition current_known_offenders : list string := [].
+
+(* The offending entries as they were extracted before those repairs: the named
+   pre-fix variant used by the _refuted witnesses. *)
+Definition prefix_offending_table : table :=
+  [ mkEn "internal/output.(*groupWriter).Write" "gw.buff" "internal/output.groupWriter.buff" Wr [] false true true;
+    mkEn "internal/output.(*prefixWriter).Write" "pw.buff" "internal/output.prefixWriter.buff" Wr [] false true true;
+    mkEn "internal/output.(*prefixWriter).writeOutputLines" "pw.buff (x2)" "internal/output.prefixWriter.buff" Wr [] false true true;
+    mkEn "task.resolveMatrixRefs" "row.Value" "taskfile/ast.MatrixRow.Value" Wr [] false true true;
+    mkEn "task.product" "row.Value" "taskfile/ast.MatrixRow.Value" Rd [] false true true ].
 
 Definition subset_b (a b : list string) : bool := forallb (fun x => existsb (String.eqb x) b) a.
 
